@@ -8,91 +8,158 @@ Open Scope Z_scope.
 (* ================================================================== *)
 (* REST: handler.TimeoutHandler                                         *)
 
-(* all_or_nothing.  For every pre-set header map of the real writer, every handler
-   script and EVERY schedule of handler actions (H), Done events (D: deadline or
-   cancellation, possibly never) and select branches (S), the state reached is one
-   of ([outcome], Proofs.v):
+(* all_or_nothing.  [fl] says whether the real writer implements http.Flusher.  For
+   every pre-set header map of the real writer, every handler script that cannot
+   flush through (the writer is no Flusher, or the script never calls Flush) and
+   EVERY schedule of handler actions (H), Done events (D: deadline or cancellation,
+   possibly never) and select branches (S), the state reached is one of
+   ([outcome_strict], Proofs.v):
    - ServeHTTP has not returned and the real writer is untouched;
    - it returned through `done`: the handler has returned after running [ex] — the
      whole script, or the script up to a context check that saw Done — without
-     panic, and the real writer holds exactly that run's response: status of its
-     first WriteHeader/Write, its final header map laid over the writer's own
-     headers, all its body chunks ([spec_complete]) — nothing of the timeout reply;
+     panic, and the real writer holds exactly that run's response ([complete]); if no
+     1xx code is the first status written ([info_first], see the known finding in
+     notes/C04.md) this is [spec_complete]: status of its first final
+     WriteHeader/Write, its final header map laid over the writer's own headers, all
+     its body chunks, no 1xx response — nothing of the timeout reply;
    - it returned through `ctx.Done()`: the real writer holds exactly 503 (deadline)
      or 499 (cancellation), the writer's own headers and the fixed body — no status,
-     header or byte of the handler;
+     header, informational response or byte of the handler;
    - it re-raised the panic the script ends in, and the real writer is untouched. *)
-Theorem all_or_nothing : forall h0 script sched,
-  outcome h0 script (run (init h0 script) sched).
+Theorem all_or_nothing : forall fl h0 script sched,
+  fl = false \/ has_flush script = false ->
+  outcome_strict fl h0 script (run (init fl h0 script) sched).
 Proof. exact all_or_nothing_lemma. Qed.
 Print Assumptions all_or_nothing.
 
+(* all_or_nothing_flush.  The same for EVERY script, Flush included ([outcome]): a
+   handler that calls Flush on a Flusher-capable writer hands the buffered prefix to
+   the client itself ([committed fl h0 ex] = what its own Flush calls passed on while
+   running [ex]); everything else stays all-or-nothing around that: pending = only
+   that prefix; done = the complete response; timeout = that prefix (as it was when
+   the timeout branch ran: [pre] is a prefix of the script) followed by the timeout
+   reply and nothing later; panic = that prefix. *)
+Theorem all_or_nothing_flush : forall fl h0 script sched,
+  outcome fl h0 script (run (init fl h0 script) sched).
+Proof. exact all_or_nothing_flush_lemma. Qed.
+Print Assumptions all_or_nothing_flush.
+
+(* what the handler has not flushed itself never reaches the client before the outcome *)
+Theorem unflushed_stays_private : forall fl h0 acts,
+  fl = false \/ has_flush acts = false -> committed fl h0 acts = rw_fresh fl h0.
+Proof. exact committed_untouched. Qed.
+Print Assumptions unflushed_stays_private.
+
 (* a handler that ignores the context: the `done` outcome is the response of the whole script *)
-Theorem all_or_nothing_ignoring_ctx : forall h0 script sched,
-  ignores_ctx script ->
-  sst (run (init h0 script) sched) = SDoneRet ->
-  rw (run (init h0 script) sched) = spec_complete h0 script /\
-  spec_panic false script = None.
+Theorem all_or_nothing_ignoring_ctx : forall fl h0 script sched,
+  fl = false \/ has_flush script = false ->
+  ignores_ctx script -> info_first fl script = false ->
+  sst (run (init fl h0 script) sched) = SDoneRet ->
+  rw (run (init fl h0 script) sched) = spec_complete fl h0 script /\
+  spec_panic fl false script = None.
 Proof. exact ignoring_ctx_lemma. Qed.
 Print Assumptions all_or_nothing_ignoring_ctx.
 
 (* no Done event: never the timeout reply; `done` gives the whole script's response *)
-Theorem no_deadline_complete : forall h0 script sched,
+Theorem no_deadline_complete : forall fl h0 script sched,
+  fl = false \/ has_flush script = false ->
   no_d sched ->
-  (forall k, sst (run (init h0 script) sched) <> STimeoutRet k) /\
-  (sst (run (init h0 script) sched) = SDoneRet ->
-   rw (run (init h0 script) sched) = spec_complete h0 script).
+  (forall k, sst (run (init fl h0 script) sched) <> STimeoutRet k) /\
+  (sst (run (init fl h0 script) sched) = SDoneRet -> info_first fl script = false ->
+   rw (run (init fl h0 script) sched) = spec_complete fl h0 script).
 Proof. exact no_deadline_lemma. Qed.
 Print Assumptions no_deadline_complete.
 
-(* [complete] (the reference run flushed to a fresh writer) is the independent
-   description used by the checker *)
-Theorem complete_is_spec : forall h0 acts,
-  spec_panic false acts = None -> complete h0 acts = spec_complete h0 acts.
+(* the same for scripts that flush: what the client has seen in the end (1xx responses,
+   status, frozen headers, body) is the independent description [spec_view]: status of
+   the first final WriteHeader / Write / Flush, the header map of the first Flush, all chunks *)
+Theorem no_deadline_complete_flush : forall fl h0 script sched,
+  no_d sched ->
+  (forall k, sst (run (init fl h0 script) sched) <> STimeoutRet k) /\
+  (sst (run (init fl h0 script) sched) = SDoneRet -> info_first fl script = false ->
+   rw_view (rw (run (init fl h0 script) sched)) = spec_view fl h0 script).
+Proof. exact no_deadline_flush_lemma. Qed.
+Print Assumptions no_deadline_complete_flush.
+
+(* [complete] (the reference run copied to the real writer) is the independent
+   description used by the checker: for the client's view always, for the whole
+   writer when nothing is flushed through.  The hypothesis [info_first = false]
+   excludes the known finding (a 1xx code written first is recorded as the status). *)
+Theorem complete_is_spec_view : forall fl h0 acts,
+  spec_panic fl false acts = None -> info_first fl acts = false ->
+  rw_view (complete fl h0 acts) = spec_view fl h0 acts.
+Proof. exact complete_view_spec. Qed.
+Print Assumptions complete_is_spec_view.
+
+Theorem complete_is_spec : forall fl h0 acts,
+  fl = false \/ has_flush acts = false ->
+  spec_panic fl false acts = None -> info_first fl acts = false ->
+  complete fl h0 acts = spec_complete fl h0 acts.
 Proof. exact complete_spec. Qed.
 Print Assumptions complete_is_spec.
 
+(* the panic a script ends in does not depend on flushing or timing *)
+Theorem script_panic_is_spec : forall fl h0 acts,
+  snd (href (start fl h0) acts) = spec_panic fl false acts.
+Proof. exact script_panic_spec. Qed.
+Print Assumptions script_panic_is_spec.
+
 (* nothing_after_timeout.  Once ServeHTTP returned through the timeout branch, no
-   continuation of the schedule — the handler going on writing, headers, status,
-   panicking, further Done events — changes the real writer. *)
-Theorem nothing_after_timeout : forall h0 script sched1 sched2 k,
-  sst (run (init h0 script) sched1) = STimeoutRet k ->
-  rw (run (init h0 script) (sched1 ++ sched2)) = timeout_resp h0 k /\
-  sst (run (init h0 script) (sched1 ++ sched2)) = STimeoutRet k.
+   continuation of the schedule — the handler going on writing, flushing, setting
+   headers or a status, panicking, further Done events — changes the real writer; and
+   without flush-through it is exactly the timeout reply. *)
+Theorem nothing_after_timeout : forall fl h0 script sched1 sched2 k,
+  sst (run (init fl h0 script) sched1) = STimeoutRet k ->
+  rw (run (init fl h0 script) (sched1 ++ sched2)) = rw (run (init fl h0 script) sched1) /\
+  sst (run (init fl h0 script) (sched1 ++ sched2)) = STimeoutRet k /\
+  (fl = false \/ has_flush script = false ->
+   rw (run (init fl h0 script) (sched1 ++ sched2)) = timeout_resp fl h0 k).
 Proof. exact nothing_after_timeout_lemma. Qed.
 Print Assumptions nothing_after_timeout.
 
 (* the same for every way ServeHTTP returned: the response is final *)
-Theorem response_final : forall h0 script sched1 sched2,
-  sst (run (init h0 script) sched1) <> SWait ->
-  rw (run (init h0 script) (sched1 ++ sched2)) = rw (run (init h0 script) sched1) /\
-  sst (run (init h0 script) (sched1 ++ sched2)) = sst (run (init h0 script) sched1).
+Theorem response_final : forall fl h0 script sched1 sched2,
+  sst (run (init fl h0 script) sched1) <> SWait ->
+  rw (run (init fl h0 script) (sched1 ++ sched2)) = rw (run (init fl h0 script) sched1) /\
+  sst (run (init fl h0 script) (sched1 ++ sched2)) = sst (run (init fl h0 script) sched1).
 Proof. exact response_final_lemma. Qed.
 Print Assumptions response_final.
 
-(* only the select's branches write to the real writer: no H or D event does, ever *)
+(* only the select's branches and the handler's own Flush (before the timeout, on a
+   Flusher-capable writer) write to the real writer: no other H or D event does, ever *)
 Theorem handler_never_touches_writer : forall s e,
-  (forall b, e <> ES b) -> rw (stepT s e) = rw s.
-Proof. exact only_S_writes. Qed.
+  (forall b, e <> ES b) ->
+  tto s = true \/ rfl (rw s) = false \/ (forall r', hrest s <> AFlush :: r') ->
+  rw (stepT s e) = rw s.
+Proof. exact only_S_and_flush_write. Qed.
 Print Assumptions handler_never_touches_writer.
 
 (* a Write issued after the timeout is refused with ErrHandlerTimeout and buffers nothing *)
-Theorem late_write_gets_handler_timeout : forall h0 script sched k bs r,
-  let s := run (init h0 script) sched in
+Theorem late_write_gets_handler_timeout : forall fl h0 script sched k bs r,
+  let s := run (init fl h0 script) sched in
   sst s = STimeoutRet k -> hst s = HRun -> hrest s = AWrite bs :: r ->
   exists s', step s EH = Some (s', RWriteTimeout) /\ rw s' = rw s /\ tb s' = tb s.
 Proof. exact late_write_refused. Qed.
 Print Assumptions late_write_gets_handler_timeout.
 
+(* a Flush issued after the timeout passes nothing on (repaired by 696f32f) *)
+Theorem late_flush_does_nothing : forall fl h0 script sched k r,
+  let s := run (init fl h0 script) sched in
+  sst s = STimeoutRet k -> hst s = HRun -> hrest s = AFlush :: r ->
+  exists s', step s EH = Some (s', RNone) /\ rw s' = rw s /\ tb s' = tb s.
+Proof. exact late_flush_ignored. Qed.
+Print Assumptions late_flush_does_nothing.
+
 (* returns_at_deadline.  In every reachable state where Done has happened and
    ServeHTTP is still selecting, the timeout branch is enabled and completes the
    request with the timeout reply in that one step, consuming no handler action —
    whatever the handler is doing or has left to do. *)
-Theorem returns_at_deadline : forall h0 script sched k,
-  let s := run (init h0 script) sched in
+Theorem returns_at_deadline : forall fl h0 script sched k,
+  let s := run (init fl h0 script) sched in
   dk s = Some k -> sst s = SWait ->
   exists s', step s (ES BTimeout) = Some (s', RNone) /\
-             sst s' = STimeoutRet k /\ rw s' = timeout_resp h0 k /\
+             sst s' = STimeoutRet k /\ rw s' = timeout_write k (committed fl h0 (hexec s)) /\
+             (fl = false \/ has_flush script = false -> rw s' = timeout_resp fl h0 k) /\
              hst s' = hst s /\ hrest s' = hrest s /\ hexec s' = hexec s.
 Proof. exact returns_at_deadline_lemma. Qed.
 Print Assumptions returns_at_deadline.
@@ -116,30 +183,85 @@ Print Assumptions route_timeout.
 (* exempt_passthrough: websocket-upgrade and event-stream requests are not wrapped,
    keep the caller's deadline, and for every script and schedule the real writer
    holds exactly what the handler's executed actions wrote to it directly *)
-Theorem exempt_passthrough : forall dur rq parent now h0 script sched,
+Theorem exempt_passthrough : forall dur rq parent now fl h0 script sched,
   rq <> RqPlain ->
   wrapped dur rq = false /\ rest_deadline dur rq parent now = parent /\
-  xrw (xrun (xinit h0 script) sched) = direct h0 (xexec (xrun (xinit h0 script) sched)) /\
-  (xhst (xrun (xinit h0 script) sched) = HDone ->
-   cut script (xexec (xrun (xinit h0 script) sched)) (xdk (xrun (xinit h0 script) sched))).
+  xrw (xrun (xinit fl h0 script) sched) = direct fl h0 (xexec (xrun (xinit fl h0 script) sched)) /\
+  (xhst (xrun (xinit fl h0 script) sched) = HDone ->
+   cut script (xexec (xrun (xinit fl h0 script) sched)) (xdk (xrun (xinit fl h0 script) sched))).
 Proof. exact exempt_lemma. Qed.
 Print Assumptions exempt_passthrough.
 
 (* ================================================================== *)
-(* several requests through one TimeoutHandler instance                 *)
+(* the rest engine: which timeout a route runs under                    *)
 
-(* requests_isolated.  For every list of requests (own pre-set headers, own handler
-   script) served by one middleware instance and EVERY schedule interleaving the H,
-   D and S threads of all of them — in particular a handler abandoned at its timeout
-   that goes on writing while later requests are being served — the component of
-   each request is exactly the single-request run under that request's own events,
-   hence its response is all-or-nothing w.r.t. its OWN script: nothing of any other
-   request can appear in it. *)
-Theorem requests_isolated : forall reqs sched i h0 script,
-  nth_error reqs i = Some (h0, script) ->
+(* route options are applied in order: the last WithTimeout / WithSSE decides; WithSSE
+   resets the route timeout to 0, which (like no option at all) means the server's *)
+Theorem route_options_last_wins : forall opts t,
+  route_conf [] = mkFR 0 false /\
+  fr_timeout (route_conf (opts ++ [OptTimeout t])) = t /\
+  route_conf (opts ++ [OptSSE]) = mkFR 0 true.
+Proof.
+  exact (fun opts t => conj route_conf_none (conj (route_conf_last_timeout opts t) (route_conf_last_sse opts))).
+Qed.
+Print Assumptions route_options_last_wins.
+
+(* the duration given to TimeoutHandler: none when the middleware is off, the route's
+   own timeout when positive, otherwise conf.Timeout milliseconds *)
+Theorem engine_route_timeout : forall mw conf_ms f,
+  (mw = false -> eng_route_dur mw conf_ms f = 0) /\
+  (mw = true -> 0 < fr_timeout f -> eng_route_dur mw conf_ms f = fr_timeout f) /\
+  (mw = true -> fr_timeout f <= 0 -> eng_route_dur mw conf_ms f = conf_ms * 1000000).
+Proof. exact eng_route_dur_spec. Qed.
+Print Assumptions engine_route_timeout.
+
+(* deadline_shrinks (engine): for every server configuration, route group and caller
+   deadline, a plain request to a route with a positive chosen timeout runs under
+   min(caller's, now + chosen) *)
+Theorem deadline_shrinks_engine : forall mw conf_ms f parent now,
+  0 < eng_route_dur mw conf_ms f ->
+  exists d, eng_deadline mw conf_ms f RqPlain parent now = Some d /\
+            d <= now + eng_route_dur mw conf_ms f /\
+            (forall p, parent = Some p -> d <= p).
+Proof. exact eng_deadline_shrinks. Qed.
+Print Assumptions deadline_shrinks_engine.
+
+(* exempt requests (by request header), routes without timeout (0 = no timeout) and
+   servers without the timeout middleware: not wrapped, caller's deadline kept *)
+Theorem engine_exempt : forall mw conf_ms f rq parent now,
+  rq <> RqPlain \/ eng_route_dur mw conf_ms f <= 0 ->
+  wrapped (eng_route_dur mw conf_ms f) rq = false /\
+  eng_deadline mw conf_ms f rq parent now = parent.
+Proof. exact eng_exempt. Qed.
+Print Assumptions engine_exempt.
+
+(* http.Server.WriteTimeout (1.1 x the largest timeout of the server) is never shorter
+   than the timeout of any route, so the 503 reply can still be written at the route's
+   deadline; ReadTimeout (0.8 x) never exceeds it *)
+Theorem server_write_timeout_covers_routes : forall mw conf_ms groups g,
+  In g groups -> 0 <= conf_ms ->
+  eng_route_dur mw conf_ms g <= srv_write_timeout (eng_timeout conf_ms groups) /\
+  srv_read_timeout (eng_timeout conf_ms groups) <= eng_timeout conf_ms groups.
+Proof. exact write_timeout_covers. Qed.
+Print Assumptions server_write_timeout_covers_routes.
+
+(* ================================================================== *)
+(* several requests through one TimeoutHandler instance / one server    *)
+
+(* requests_isolated.  For every list of requests (own writer, own pre-set headers, own
+   handler script) served by one middleware instance and EVERY schedule interleaving the
+   H, D and S threads of all of them — in particular a handler abandoned at its timeout
+   that goes on writing and flushing while later requests are being served — the
+   component of each request is exactly the single-request run under that request's own
+   events, hence its response is all-or-nothing w.r.t. its OWN script: nothing of any
+   other request can appear in it. *)
+Theorem requests_isolated : forall reqs sched i q,
+  nth_error reqs i = Some q ->
   exists s, nth_error (mrun (minit reqs) sched) i = Some s /\
-            s = run (init h0 script) (proj i sched) /\
-            outcome h0 script s.
+            s = run (init (q_fl q) (q_h0 q) (q_script q)) (proj i sched) /\
+            outcome (q_fl q) (q_h0 q) (q_script q) s /\
+            (q_fl q = false \/ has_flush (q_script q) = false ->
+             outcome_strict (q_fl q) (q_h0 q) (q_script q) s).
 Proof. exact requests_isolated_lemma. Qed.
 Print Assumptions requests_isolated.
 
@@ -150,23 +272,36 @@ Proof. exact mstep_frame. Qed.
 Print Assumptions request_step_frame.
 
 (* a request's timeout reply survives everything every request's threads do later *)
-Theorem timeout_reply_final_among_requests : forall reqs sched1 sched2 i h0 script k s1,
-  nth_error reqs i = Some (h0, script) ->
+Theorem timeout_reply_final_among_requests : forall reqs sched1 sched2 i q k s1,
+  nth_error reqs i = Some q ->
   nth_error (mrun (minit reqs) sched1) i = Some s1 -> sst s1 = STimeoutRet k ->
   exists s2, nth_error (mrun (minit reqs) (sched1 ++ sched2)) i = Some s2 /\
-             rw s2 = timeout_resp h0 k /\ sst s2 = STimeoutRet k.
+             rw s2 = rw s1 /\ sst s2 = STimeoutRet k /\
+             (q_fl q = false \/ has_flush (q_script q) = false ->
+              rw s2 = timeout_resp (q_fl q) (q_h0 q) k).
 Proof. exact isolated_timeout_final. Qed.
 Print Assumptions timeout_reply_final_among_requests.
+
+(* one server, many routes: wrapped and unwrapped (exempt / no timeout) requests side by
+   side; each component is the single-request run of its own kind under its own events *)
+Theorem server_requests_isolated : forall wraps reqs sched i wrap q,
+  nth_error wraps i = Some wrap -> nth_error reqs i = Some q ->
+  nth_error (cmrun (map (fun wq => cinit (fst wq) (snd wq)) (combine wraps reqs)) sched) i =
+  Some (if wrap then CW (run (init (q_fl q) (q_h0 q) (q_script q)) (proj i sched))
+        else CX (xrun (xinit (q_fl q) (q_h0 q) (q_script q)) (proj i sched))).
+Proof. exact server_requests_isolated_lemma. Qed.
+Print Assumptions server_requests_isolated.
 
 (* request A is abandoned after its first write, request B is served while A's
    handler goes on writing: B gets exactly B's response, A keeps the 499 *)
 Example ex_two_requests :
-  let reqs := [([], [AWrite [130]; AWrite [131]]); ([(1, [5])], [ASet 2 8; AWriteHeader 201; AWrite [200]])] in
+  let reqs := [mkReq false [] [AWrite [130]; AWrite [131]];
+               mkReq false [(1, [5])] [ASet 2 8; AWriteHeader 201; AWrite [200]]] in
   let sched := [(0, EH); (0, ED KCancel); (0, ES BTimeout); (1, EH); (0, EH); (1, EH); (0, EH);
                 (1, EH); (1, EH); (1, ES BDone)]%nat in
   map rw (mrun (minit reqs) sched) =
-  [mkRW [] (Some (499, [])) reason;
-   mkRW [(1, [5]); (2, [8])] (Some (201, [(1, [5]); (2, [8])])) [200]].
+  [mkRW false [] (Some (499, [])) reason [];
+   mkRW false [(1, [5]); (2, [8])] (Some (201, [(1, [5]); (2, [8])])) [200] []].
 Proof. vm_compute. reflexivity. Qed.
 
 (* ================================================================== *)
@@ -288,13 +423,13 @@ Definition ex_script : list act :=
 Definition ex_sched_timeout : list ev :=
   [EH; EH; EH; ED KDeadline; ES BTimeout; EH; EH; EH].
 Example ex_timeout :
-  let s := run (init ex_h0 ex_script) ex_sched_timeout in
+  let s := run (init true ex_h0 ex_script) ex_sched_timeout in
   sst s = STimeoutRet KDeadline /\ hst s = HDone /\
-  rw s = mkRW [(1, [5])] (Some (503, [(1, [5])])) reason.
+  rw s = mkRW true [(1, [5])] (Some (503, [(1, [5])])) reason [].
 Proof. vm_compute. repeat split. Qed.
 
 Example ex_late_write :
-  let s := run (init ex_h0 ex_script) [EH; EH; EH; ED KCancel; ES BTimeout; EH] in
+  let s := run (init true ex_h0 ex_script) [EH; EH; EH; ED KCancel; ES BTimeout; EH] in
   sst s = STimeoutRet KCancel /\ hst s = HRun /\ hrest s = [AWrite [202]] /\
   step s EH = Some (run s [EH], RWriteTimeout).
 Proof. vm_compute. repeat split. Qed.
@@ -302,29 +437,63 @@ Proof. vm_compute. repeat split. Qed.
 (* both `done` and `ctx.Done()` ready: either branch, each all-or-nothing *)
 Example ex_both_ready :
   let pre := [EH; EH; EH; EH; EH; EH; ED KCancel] in
-  rw (run (init ex_h0 ex_script) (pre ++ [ES BDone])) =
-    mkRW [(1, [7]); (2, [9])] (Some (201, [(1, [7]); (2, [9])])) [200; 201; 202] /\
-  rw (run (init ex_h0 ex_script) (pre ++ [ES BTimeout])) =
-    mkRW [(1, [5])] (Some (499, [(1, [5])])) reason.
+  rw (run (init false ex_h0 ex_script) (pre ++ [ES BDone])) =
+    mkRW false [(1, [7]); (2, [9])] (Some (201, [(1, [7]); (2, [9])])) [200; 201; 202] [] /\
+  rw (run (init false ex_h0 ex_script) (pre ++ [ES BTimeout])) =
+    mkRW false [(1, [5])] (Some (499, [(1, [5])])) reason [].
 Proof. vm_compute. split; reflexivity. Qed.
 
-Example ex_ignores : ignores_ctx ex_script /\ spec_panic false ex_script = None.
-Proof. split; [|reflexivity]. intros H. repeat (destruct H as [H|H]; [discriminate|]). exact H. Qed.
+Example ex_ignores : ignores_ctx ex_script /\ spec_panic true false ex_script = None /\
+                     info_first true ex_script = false /\ has_flush ex_script = false.
+Proof.
+  split; [|repeat split].
+  intros H. repeat (destruct H as [H|H]; [discriminate|]). exact H.
+Qed.
 
 Example ex_panic :
-  let s := run (init ex_h0 [AWrite [200]; APanic 4]) [EH; EH; ED KCancel; ES BPanic] in
-  sst s = SPanicRet (PUser 4) /\ rw s = rw_fresh ex_h0.
+  let s := run (init true ex_h0 [AWrite [200]; APanic 4]) [EH; EH; ED KCancel; ES BPanic] in
+  sst s = SPanicRet (PUser 4) /\ rw s = rw_fresh true ex_h0.
 Proof. vm_compute. split; reflexivity. Qed.
 
 (* a context check that sees Done cuts the run; `done` then delivers that run completely *)
 Example ex_cut :
-  let s := run (init [] [AWrite [200]; ACheckCtx; AWrite [201]]) [EH; ED KCancel; EH; EH; ES BDone] in
+  let s := run (init true [] [AWrite [200]; ACheckCtx; AWrite [201]]) [EH; ED KCancel; EH; EH; ES BDone] in
   sst s = SDoneRet /\ hexec s = [AWrite [200]; ACheckCtx] /\
-  rw s = mkRW [] (Some (200, [])) [200].
+  rw s = mkRW true [] (Some (200, [])) [200] [].
 Proof. vm_compute. repeat split. Qed.
 
+(* Flush: the status the handler set goes out with the first Flush, later chunks follow;
+   a timeout after the Flush appends its reply to what was flushed and nothing later;
+   a Flush after the timeout passes nothing on *)
+Definition ex_flush_script : list act :=
+  [ASet 1 7; AWriteHeader 404; AWrite [200]; AFlush; ASet 2 9; AWrite [201]; AFlush; AWrite [202]].
+Example ex_flush_complete :
+  let s := run (init true ex_h0 ex_flush_script) [EH; EH; EH; EH; EH; EH; EH; EH; EH; ES BDone] in
+  sst s = SDoneRet /\
+  rw_view (rw s) = ([], Some (404, [(1, [7])]), [200; 201; 202]) /\
+  rw_view (rw s) = spec_view true ex_h0 ex_flush_script.
+Proof. vm_compute. repeat split. Qed.
+
+Example ex_flush_then_timeout :
+  let s := run (init true ex_h0 ex_flush_script) [EH; EH; EH; EH; EH; EH; ED KDeadline; ES BTimeout; EH; EH; EH] in
+  sst s = STimeoutRet KDeadline /\ hst s = HDone /\
+  rw_view (rw s) = ([], Some (404, [(1, [7])]), [200] ++ reason).
+Proof. vm_compute. repeat split. Qed.
+
+Example ex_timeout_then_flush :
+  let s := run (init true ex_h0 ex_flush_script) [EH; EH; EH; ED KCancel; ES BTimeout; EH; EH; EH; EH; EH; EH] in
+  sst s = STimeoutRet KCancel /\ hst s = HDone /\
+  rw s = mkRW true [(1, [5])] (Some (499, [(1, [5])])) reason [].
+Proof. vm_compute. repeat split. Qed.
+
+(* the same script on a writer that is no Flusher: Flush is a no-op, strict all-or-nothing *)
+Example ex_flush_noflusher :
+  let s := run (init false ex_h0 ex_flush_script) [EH; EH; EH; EH; EH; EH; ED KDeadline; ES BTimeout; EH; EH; EH] in
+  rw s = timeout_resp false ex_h0 KDeadline.
+Proof. vm_compute. reflexivity. Qed.
+
 Example ex_returns_at_deadline_hyps :
-  let s := run (init ex_h0 ex_script) [EH; EH; ED KDeadline] in
+  let s := run (init true ex_h0 ex_script) [EH; EH; ED KDeadline] in
   dk s = Some KDeadline /\ sst s = SWait /\ hst s = HRun /\ length (hrest s) = 3%nat.
 Proof. vm_compute. repeat split. Qed.
 
@@ -338,6 +507,22 @@ Example ex_deadlines :
   method_timeout [(7, 10)] 0 5 = 5 /\
   client_deadline [0; 50] 40 (Some 1000) 100 = Some 1000 /\
   client_deadline [50] 40 (Some 1000) 100 = Some 150.
+Proof. vm_compute. repeat split. Qed.
+
+(* a server with conf.Timeout = 3 s and three route groups: no option, WithTimeout(10 s),
+   WithSSE(): chosen timeouts, ng.timeout, Read/WriteTimeout; an SSE route is exempt by the
+   request header only *)
+Example ex_engine :
+  let groups := [route_conf []; route_conf [OptTimeout 10000000000]; route_conf [OptTimeout 5; OptSSE]] in
+  map (eng_route_dur true 3000) groups = [3000000000; 10000000000; 3000000000] /\
+  map (eng_route_dur false 3000) groups = [0; 0; 0] /\
+  eng_timeout 3000 groups = 10000000000 /\
+  srv_write_timeout (eng_timeout 3000 groups) = 11000000000 /\
+  srv_read_timeout (eng_timeout 3000 groups) = 8000000000 /\
+  eng_deadline true 3000 (route_conf [OptSSE]) RqPlain (Some 1000000000) 50 = Some 1000000000 /\
+  eng_deadline true 3000 (route_conf [OptSSE]) RqPlain None 50 = Some 3000000050 /\
+  eng_deadline true 3000 (route_conf [OptSSE]) RqSSE None 50 = None /\
+  eng_deadline true 0 (route_conf []) RqPlain (Some 7) 50 = Some 7.
 Proof. vm_compute. repeat split. Qed.
 
 Example ex_slot :
